@@ -6,9 +6,10 @@
 import G9.Driver.Wire
 import G9.Driver.Logger
 import G9.Driver.SrvSeq
+import G9.Driver.Frame
 open G9 G9.Driver
 
-def handlers : List (String → List String → Option String) := [wire, logger, srvseq]
+def handlers : List (String → List String → Option String) := [wire, logger, srvseq, frames]
 
 def answer (line : String) : String :=
   match (line.trimAscii.toString.splitOn " ").filter (· ≠ "") with
